@@ -172,6 +172,10 @@ func runC03(r *Report) {
 	ruleWrap(r)
 	ruleFreshScanReader(r)
 	ruleNoMergeDecode(r)
+	ruleDiskSearch(r)
+	ruleIndexEntryComplete(r)
+	ruleSeekTrial(r)
+	ruleBufferedOrder(r)
 	ruleCompressor(r)
 	rulePoolPutOnce(r)
 	ruleBloomEveryKey(r)
@@ -649,4 +653,233 @@ func mergeNeverSet(p *Prog) bool {
 		})
 	}
 	return ok
+}
+
+// R-disk-search: the offset binary search of the disk index decides nothing from a single probe.
+// (D12a) A probe that lands behind the start of the last entry finds no entry (io.EOF); that only says "everything from
+// here on is greater than the target". Returning "not found" from inside the loop makes present keys absent as soon as
+// the last entry is larger than the first probe distance.
+func ruleDiskSearch(r *Report) {
+	const rule = "disk-search"
+	r.Rule(rule, 3, "DiskKeyIndex.binarySearch: no success return is reachable from inside the search loop (only through the loop condition); a probe that finds no entry (io.EOF) lowers the upper bound to the probe offset and leaves the lower bound alone; findAt caches a probe result only after the read succeeded")
+	p := r.P
+	fn := r.NeedFunc(rule, "sstables.DiskKeyIndex.binarySearch")
+	if fn != nil {
+		// the loop header: an If on `phi < phi` that one successor can reach again
+		var hdr *ssa.BasicBlock
+		var iPhi, jPhi *ssa.Phi
+		for _, b := range liveBlocks(fn) {
+			if len(b.Instrs) == 0 {
+				continue
+			}
+			iff, ok := b.Instrs[len(b.Instrs)-1].(*ssa.If)
+			if !ok {
+				continue
+			}
+			bo, ok := iff.Cond.(*ssa.BinOp)
+			if !ok || bo.Op != token.LSS {
+				continue
+			}
+			x, okX := bo.X.(*ssa.Phi)
+			y, okY := bo.Y.(*ssa.Phi)
+			if !okX || !okY || x.Block() != b || y.Block() != b {
+				continue
+			}
+			if reachFrom(b.Succs[0], nil)[b] && !reachFrom(b.Succs[1], nil)[b] {
+				hdr, iPhi, jPhi = b, x, y
+			}
+		}
+		key := rule + "/sstables.DiskKeyIndex.binarySearch/no-verdict-inside-loop"
+		if hdr == nil {
+			r.Missing(rule, key, "search loop `for i < j` not found")
+		} else {
+			removed := map[Edge]bool{{hdr, hdr.Succs[1]}: true}
+			var early []Site
+			for _, nr := range nilReturns(fn) {
+				if siteReachable(nr, removed) {
+					early = append(early, nr)
+				}
+			}
+			if len(early) == 0 {
+				r.OK(rule, key, hdr.Instrs[len(hdr.Instrs)-1].Pos(), "every success return lies behind the loop condition")
+			} else {
+				r.Bad(rule, key, early[0].Pos(), "a success return is reachable from inside the search loop: one probe that finds no entry behind it (it landed behind the start of the last index entry) ends the search with \"not found\", although the target may lie before the probe (input: table {\"a\", 500×\"z\"} through DiskIndexLoader: Contains and Get miss both keys)")
+			}
+			// the EOF edge inside the loop: j = probe, i unchanged
+			key = rule + "/sstables.DiskKeyIndex.binarySearch/eof-probe-lowers-upper-bound"
+			loop := map[*ssa.BasicBlock]bool{}
+			for b := range reachFrom(hdr.Succs[0], nil) {
+				if reachFrom(b, nil)[hdr] {
+					loop[b] = true
+				}
+			}
+			loop[hdr.Succs[0]] = true
+			var probe ssa.Value
+			var probeSite Site
+			for _, s := range CallsIn(fn, Keys("sstables.DiskKeyIndex.findAt")) {
+				if loop[s.Block] {
+					a := argsOf(s.Call())
+					if len(a) >= 1 {
+						probe, probeSite = a[len(a)-1], s
+					}
+				}
+			}
+			if probe == nil {
+				r.Missing(rule, key, "no findAt probe inside the search loop")
+			} else {
+				al := errAliases(probeSite)
+				verdict, detail := "", ""
+				for b := range loop {
+					v, g, isS, _, ok := sentinelTest(b)
+					if !ok || !al[v] || g != "io.EOF" {
+						continue
+					}
+					// follow the EOF side through jumps back to the header
+					cur, prev := isS, b
+					seen := map[*ssa.BasicBlock]bool{}
+					for cur != hdr && !seen[cur] && len(cur.Succs) == 1 {
+						seen[cur] = true
+						prev, cur = cur, cur.Succs[0]
+					}
+					if cur != hdr {
+						verdict, detail = "bad", "the io.EOF side of the probe does not continue the search"
+						continue
+					}
+					pi := -1
+					for k, pb := range hdr.Preds {
+						if pb == prev {
+							pi = k
+						}
+					}
+					if pi < 0 {
+						continue
+					}
+					if iPhi.Edges[pi] == ssa.Value(iPhi) && jPhi.Edges[pi] == probe {
+						if verdict == "" {
+							verdict = "ok"
+						}
+					} else {
+						verdict, detail = "bad", "after a probe that found no entry the lower bound moves or the upper bound is not set to the probe offset: keys before the probe are skipped"
+					}
+				}
+				switch verdict {
+				case "ok":
+					r.OK(rule, key, probeSite.Pos(), "io.EOF from a probe: j = h, i unchanged")
+				case "bad":
+					r.Bad(rule, key, probeSite.Pos(), detail)
+				default:
+					r.Bad(rule, key, probeSite.Pos(), "a probe that finds no entry (io.EOF) is not turned into \"greater than the target\" inside the loop")
+				}
+			}
+		}
+	}
+	if fa := r.NeedFunc(rule, "sstables.DiskKeyIndex.findAt"); fa != nil {
+		o := &order{r, p}
+		A := CallsIn(fa, Suffix("ReadAtI.SeekNext", "MMapProtoReader.SeekNext"))
+		var B []Site
+		eachInstr(fa, func(s Site) {
+			if _, ok := s.Instr.(*ssa.MapUpdate); ok {
+				B = append(B, s)
+			}
+		})
+		key := rule + "/sstables.DiskKeyIndex.findAt/cache-only-success"
+		if len(B) == 0 {
+			r.OK(rule, key, fa.Pos(), "findAt does not cache")
+		} else {
+			o.OnlyAfterSuccess(rule, key, fa, "SeekNext", A, "the offset cache update", B, nil)
+		}
+	}
+}
+
+// R-index-entry-complete: an index entry is the triple (key, value offset, value checksum). Every place that
+// constructs one either leaves it empty as a decode target or sets all three fields; every place that turns an entry into
+// an IndexVal copies offset and checksum. A copy that drops the checksum yields 0, which the reader takes for
+// "legacy entry, nothing to verify": a damaged value is then served without an error.
+func ruleIndexEntryComplete(r *Report) {
+	const rule = "index-entry-complete"
+	r.Rule(rule, 6, "every sstables/proto.IndexEntry constructed outside the generated code is either an empty decode target or carries Key, ValueOffset and Checksum; every IndexVal built from an entry (loaders, disk index Get and iterator) takes Offset from ValueOffset and Checksum from Checksum")
+	p := r.P
+	for _, fn := range p.ModuleFuncs() {
+		pk := fnPkg(fn)
+		if pk == nil || strings.HasSuffix(pk.Path(), "/proto") || fn.Blocks == nil {
+			continue
+		}
+		// (1) constructions
+		n := 0
+		eachInstr(fn, func(s Site) {
+			al, ok := s.Instr.(*ssa.Alloc)
+			if !ok {
+				return
+			}
+			pt, ok := al.Type().(*types.Pointer)
+			if !ok || typeShort(pt.Elem()) != "sstables/proto.IndexEntry" {
+				return
+			}
+			set := map[string]bool{}
+			for _, ref := range *al.Referrers() {
+				fa, ok := ref.(*ssa.FieldAddr)
+				if !ok {
+					continue
+				}
+				st := derefStruct(fa.X.Type())
+				for _, rr := range *fa.Referrers() {
+					if sto, ok := rr.(*ssa.Store); ok && sto.Addr == ssa.Value(fa) {
+						set[st.Field(fa.Field).Name()] = true
+					}
+				}
+			}
+			key := fmt.Sprintf("%s/%s/construct", rule, FuncKey(fn))
+			if n > 0 {
+				key = fmt.Sprintf("%s#%d", key, n+1)
+			}
+			n++
+			r.Saw(fn)
+			switch {
+			case len(set) == 0:
+				r.OK(rule, key, al.Pos(), "empty decode target")
+			case set["Key"] && set["ValueOffset"] && set["Checksum"]:
+				r.OK(rule, key, al.Pos(), "Key, ValueOffset and Checksum set")
+			default:
+				r.Bad(rule, key, al.Pos(), "an index entry is built with only part of (Key, ValueOffset, Checksum): the missing checksum reads as 0 = \"nothing to verify\", so a damaged value found through this entry is returned without error")
+			}
+		})
+		// (2) conversions to IndexVal outside Load (Load is covered by loader-mapping)
+		if shortPkg(pk.Path()) != "sstables" || fn.Name() == "Load" {
+			continue
+		}
+		okOff, okCk, m, bad := false, false, 0, false
+		eachInstr(fn, func(s Site) {
+			st, ok := s.Instr.(*ssa.Store)
+			if !ok {
+				return
+			}
+			t, f, _, ok := fieldAddrName(st.Addr)
+			if !ok || t != "sstables.IndexVal" {
+				return
+			}
+			st2, src, _, ok2 := loadOfField(st.Val)
+			if !ok2 || st2 != "sstables/proto.IndexEntry" {
+				return
+			}
+			m++
+			switch {
+			case f == "Offset" && src == "ValueOffset":
+				okOff = true
+			case f == "Checksum" && src == "Checksum":
+				okCk = true
+			default:
+				bad = true
+			}
+		})
+		if m == 0 {
+			continue
+		}
+		r.Saw(fn)
+		key := fmt.Sprintf("%s/%s/to-index-val", rule, FuncKey(fn))
+		if okOff && okCk && !bad {
+			r.OK(rule, key, fn.Pos(), "IndexVal{Offset: ValueOffset, Checksum: Checksum}")
+		} else {
+			r.Bad(rule, key, fn.Pos(), "an IndexVal is built from an index entry without both ValueOffset→Offset and Checksum→Checksum")
+		}
+	}
 }
